@@ -1,7 +1,7 @@
 (* C19Run.v — executable comparison of Session.v with what the real session did in a forced
    scenario.  Evaluated by vm_compute on case files written by the Go harness (qv C19). *)
 From Coq Require Import List Arith Bool String.
-From QV Require Import Session Facts.
+From QV Require Import Session SessionLife Facts.
 Import ListNotations.
 
 (* one scenario run in a child process.
@@ -114,6 +114,81 @@ Definition case_ok (cf : cfg) (c : scase) : bool :=
       list_eqb_nat (map (fun a => count_sel s a true) (seq 0 (nendpoints c))) (sc_open c)
   end.
 
+(* ---------- lives: bursts of requests interleaved with losses of pooled connections ---------- *)
+
+(* a phase of a life.
+   PBurst eps sequential: one request per entry of eps (the endpoint its service lives behind AT
+   THAT MOMENT: a service that moved shows up with its new endpoint); sequential: the requests run
+   one after the other; otherwise they are all held between their first lookup and the end of their
+   dial and then released, like the requests of an scase.
+   PLose a: the pooled connection to endpoint a is lost and the session has noticed it (the
+   harness waits until the closer has run).
+   After each phase the harness records, per endpoint, the connections accepted so far, the
+   connections still open and whether the pool holds a client for it. *)
+Inductive lphase := PBurst (eps : list nat) (sequential : bool) | PLose (a : nat).
+Record lobs := { lo_accepted : list nat; lo_open : list nat; lo_pooled : list bool }.
+Record lcase := { lc_fatal : bool; lc_phases : list (lphase * lobs); lc_ids : list (option nat) }.
+
+Definition upto_dial_at (a : nat) (s : st) (i : nat) : outcome :=
+  (fix go (n : nat) (s : st) : outcome :=
+     match n with
+     | O => Run s
+     | S m => match nth_error (st_thr s) i with
+              | Some t => match t_res t with
+                          | Running => match step s (i, Some a) with Run s' => go m s' | o => o end
+                          | _ => Run s
+                          end
+              | None => Stuck
+              end
+     end) 5 s.
+
+Definition burst_run (cf : cfg) (eps : list nat) (sequential : bool) (s : st) : outcome :=
+  let n := List.length (st_thr s) in
+  bind (lstep cf s (LSpawn (map (fun a => [a]) eps))) (fun s0 =>
+  let is := seq n (List.length eps) in
+  let addr := fun i => nth (i - n) eps 0 in
+  let finish := seq_threads (fun s i => run_thread fuel (addr i) s i) is in
+  if sequential then finish s0
+  else bind (seq_threads (fun s i => upto_dial_at (addr i) s i) is s0) finish).
+
+Definition phase_run (cf : cfg) (p : lphase) (s : st) : outcome :=
+  match p with
+  | PBurst eps sequential => burst_run cf eps sequential s
+  | PLose a => lstep cf s (LLose a)
+  end.
+
+Fixpoint list_eqb_bool (a b : list bool) : bool :=
+  match a, b with
+  | [], [] => true
+  | x :: a', y :: b' => Bool.eqb x y && list_eqb_bool a' b'
+  | _, _ => false
+  end.
+
+Definition obs_ok (s : st) (o : lobs) : bool :=
+  let es := seq 0 (List.length (lo_accepted o)) in
+  list_eqb_nat (map (fun a => count_sel s a false) es) (lo_accepted o) &&
+  list_eqb_nat (map (fun a => count_sel s a true) es) (lo_open o) &&
+  list_eqb_bool (map (fun a => match lookup a (s_pool (st_sh s)) with Some _ => true | None => false end) es) (lo_pooled o).
+
+(* runs the phases; the observations are compared after every phase (not when the process died:
+   then there are none).  None: some observation differs *)
+Fixpoint life_go (cf : cfg) (cmp : bool) (ps : list (lphase * lobs)) (s : st) : option outcome :=
+  match ps with
+  | [] => Some (Run s)
+  | (p, o) :: r =>
+      match phase_run cf p s with
+      | Run s' => if negb cmp || (all_done s' && obs_ok s' o) then life_go cf cmp r s' else None
+      | x => Some x
+      end
+  end.
+
+Definition lcase_ok (cf : cfg) (c : lcase) : bool :=
+  match life_go cf (negb (lc_fatal c)) (lc_phases c) linit with
+  | Some Fatal => lc_fatal c
+  | Some (Run s) => negb (lc_fatal c) && all_done s && ids_ok s (lc_ids c)
+  | _ => false
+  end.
+
 Fixpoint bad_idx {A} (f : A -> bool) (l : list A) (i : nat) : list nat :=
   match l with
   | [] => []
@@ -130,6 +205,7 @@ Fixpoint list_eqb_str (a b : list string) : bool :=
 (* what the source text says about the switch *)
 Definition source_says_defect : bool := list_eqb_str f_session_client (render (prog cfg_pinned)).
 
-Definition mismatches (cf : cfg) (cs : list scase) : list nat * list nat :=
+Definition mismatches (cf : cfg) (cs : list scase) (ls : list lcase) : list nat * list nat * list nat :=
   (bad_idx (case_ok cf) cs 0,
+   bad_idx (lcase_ok cf) ls 0,
    if Bool.eqb (runlock_after_lock cf) source_says_defect then [] else [0]).
